@@ -195,6 +195,19 @@ def diff_class(oa, ob):
             return "%s->%s" % (oa[0], ob[0])
         if len(oa) != len(ob):
             return "%s:arity" % oa[0]
+        if oa[0] == "dict" and len(oa) == 2 and isinstance(oa[1], list) and isinstance(ob[1], list) \
+                and all(isinstance(p, list) and len(p) == 2 for p in oa[1] + ob[1]):
+            # key differences (set, order) and value differences are different classes; values are descended into
+            ka, kb = [p[0] for p in oa[1]], [p[0] for p in ob[1]]
+            if len(ka) != len(kb):
+                return "dict:len:%d->%d" % (len(ka), len(kb))
+            if first_diff(ka, kb) is not None:
+                if sorted(map(repr, ka)) == sorted(map(repr, kb)):
+                    return "dict:key-order"
+                return "dict:keys-differ"
+            for p, q in zip(oa[1], ob[1]):
+                if first_diff(p[1], q[1]) is not None:
+                    return "dict:value." + diff_class(p[1], q[1])
         for i in range(1, len(oa)):
             if first_diff(oa[i], ob[i]) is not None:
                 x, y = oa[i], ob[i]
